@@ -385,3 +385,222 @@ Proof.
   rewrite Hs' in Hx, Ht'.
   pose proof (no_retrievable_event_is_covered (ops ++ ops') names x a t' Hw Hx Ha Ht'). lia.
 Qed.
+
+(* ====================== the id markers ====================== *)
+(* a retrievable event is never marked deleted - except a deletion request that names its own id (impossible for a
+   correctly hashed event): the request is indexed before its tags are handled and the lookup of the named id reads
+   the committed tables, so it marks itself and stays *)
+Definition self_naming (x : aevent) : Prop :=
+  e_kind x = 5 /\ exists arg rest, In ([101] :: arg :: rest) (e_tags x) /\ read_hex arg 32 = Ok (e_id x).
+Definition IdCov (L : logt) (tb : tables) : Prop :=
+  forall x off, In (e_id x, off) (t_i tb) -> log_find L off = Some x -> is_deleted tb (e_id x) = true -> self_naming x.
+
+Lemma IdCov_shrink L tb tb' : ile tb tb' -> t_delids tb' = t_delids tb -> IdCov L tb -> IdCov L tb'.
+Proof.
+  intros I M H x off Hi Hf Hd. apply (H x off); [eapply ile_In; eauto|exact Hf|]. unfold is_deleted in *. rewrite <- M. exact Hd.
+Qed.
+Lemma IdCov_log L L' tb : (forall id off, In (id, off) (t_i tb) -> log_find L' off = log_find L off) -> IdCov L tb -> IdCov L' tb.
+Proof. intros Hs H x off Hi Hf. apply (H x off Hi). rewrite <- (Hs _ _ Hi). exact Hf. Qed.
+
+Lemma mark_naddr_delids tb a w tb' : mark_naddr_deleted tb a w = Ok tb' -> t_delids tb' = t_delids tb.
+Proof.
+  unfold mark_naddr_deleted. destruct (when_naddr_deleted tb a) as [old|].
+  - destruct (w <=? old); [intros [= <-]; reflexivity|].
+    destruct (t_put_checked _ _ _); cbn [bind]; try discriminate. intros [= <-]. reflexivity.
+  - destruct (t_put_checked _ _ _); cbn [bind]; try discriminate. intros [= <-]. reflexivity.
+Qed.
+
+Section IdScan.
+  Variable s : db.
+  Let L := log s.
+  Let c := committed s.
+  Hypothesis Hw : log_wf L.
+  Hypothesis Hc : AllInv L c.
+  Variable ev : aevent.
+  Variable o0 : N.
+  Hypothesis Hev : log_find L o0 = Some ev.
+  Hypothesis Hevk : e_kind ev = 5.
+
+  Lemma handle_one_tag_idcov txn tag txn' : In tag (e_tags ev) -> TI s txn -> NewOnly c txn (e_id ev) o0 -> IdCov L txn ->
+    handle_one_tag s txn ev tag = Ok txn' -> NewOnly c txn' (e_id ev) o0 /\ IdCov L txn'.
+  Proof.
+    intros Htag Ht Hn Hcov. unfold handle_one_tag. destruct tag as [|name [|arg rest]]; try (intros [= <-]; split; assumption).
+    destruct (beq name [101]) eqn:En.
+    - apply beq_eq in En. subst name.
+      destruct (read_hex arg 32) as [id| | |] eqn:Eh; try (intros [= <-]; split; assumption).
+      pose proof Ht as [[[U Hio] _] _].
+      (* marking [id] after the id has left (or never was in) the id table, or belongs to the request itself *)
+      assert (Hmk : forall t1, ile txn t1 -> t_delids t1 = t_delids txn ->
+                (forall x off, In (e_id x, off) (t_i t1) -> log_find L off = Some x -> e_id x = id -> self_naming x) ->
+                NewOnly c (mark_deleted t1 id) (e_id ev) o0 /\ IdCov L (mark_deleted t1 id)).
+      { intros t1 I M Gone. split.
+        - apply (NewOnly_shrink c txn); [|exact Hn]. destruct I as [ks Hks]. exists ks. exact Hks.
+        - intros x off Hi Hf Hd. cbn [mark_deleted t_i] in Hi.
+          destruct (list_eq_dec N.eq_dec (e_id x) id) as [E|NE]; [apply (Gone x off Hi Hf E)|].
+          apply (Hcov x off); [eapply ile_In; eauto|exact Hf|].
+          unfold is_deleted in *. cbn [mark_deleted t_delids] in Hd. rewrite t_get_put_other in Hd by exact NE. rewrite <- M. exact Hd. }
+      destruct (get_event_by_id s id) as [target| | |] eqn:Eg; cbn [bind]; try discriminate.
+      destruct target as [tg|].
+      + destruct (beq (e_pk tg) (e_pk ev)); cbn [bind]; [|discriminate].
+        destruct (remove_by_id s txn id) as [t1| | |] eqn:E; cbn [bind]; try discriminate.
+        intros [= <-]. apply Hmk; [eapply remove_by_id_ile; eauto|apply (remove_by_id_markers _ _ _ _ E)|].
+        (* the id is gone from t1 *)
+        intros x off Hi Hf Eid. exfalso. rewrite Eid in Hi.
+        unfold remove_by_id in E. destruct (t_get (t_i txn) id) as [offt|] eqn:Et.
+        * pose proof Et as Et'. apply (t_get_In _ _ _ U) in Et'. destruct (Hio id offt Et') as [y [Hy Hyid]].
+          unfold remove_by_offset in E. destruct (get_event_by_offset s offt) as [e'| | |] eqn:Eo; cbn [bind] in E; try discriminate.
+          injection E as <-. apply (gebo_find s) in Eo. assert (e' = y) by congruence. subst e'.
+          cbn [deindex_id t_i] in Hi. rewrite deindex_ti in Hi. apply In_t_del in Hi. destruct Hi as [_ Hne]. apply Hne. symmetry. exact Hyid.
+        * injection E as <-. apply (t_get_In _ _ _ U) in Hi. congruence.
+      + cbn [bind]. intros [= <-]. apply Hmk; [apply ile_refl|reflexivity|].
+        intros x off Hi Hf Eid. destruct (Hn _ _ Hi) as [Hic|[Eid' Eoff]].
+        * exfalso. unfold get_event_by_id in Eg. destruct Hc as [[Uc _] _]. rewrite Eid in Hic. apply (t_get_In _ _ _ Uc) in Hic. fold c in Eg. rewrite Hic in Eg.
+          destruct (get_event_by_offset s off); cbn [bind] in Eg; discriminate.
+        * subst off. assert (x = ev) by (rewrite Hev in Hf; congruence). subst x. split; [exact Hevk|].
+          exists arg, rest. split; [exact Htag|]. rewrite Eid. exact Eh.
+    - destruct (beq name [97]); [|intros [= <-]; split; assumption].
+      destruct (addr_parse arg) as [a| | |] eqn:Ea; try (intros [= <-]; split; assumption).
+      destruct (negb (beq (a_author a) (e_pk ev))); [discriminate|].
+      destruct (mark_naddr_deleted txn a (e_created ev)) as [t1| | |] eqn:E; cbn [bind]; try discriminate.
+      pose proof (mark_naddr_delids _ _ _ _ E) as Md. destruct (mark_naddr_spec _ _ _ _ E) as (Ti & _ & _).
+      assert (Fin : forall t2, ile t1 t2 -> t_delids t2 = t_delids t1 -> NewOnly c t2 (e_id ev) o0 /\ IdCov L t2).
+      { intros t2 I M. assert (I0 : ile txn t2) by (destruct I as [ks Hks]; exists ks; rewrite Hks, Ti; reflexivity).
+        split; [apply (NewOnly_shrink c txn); assumption|apply (IdCov_shrink L txn); [exact I0|congruence|exact Hcov]]. }
+      destruct (is_replaceable (a_kind a)).
+      { intros H. apply Fin; [eapply remove_replaceable_ile; eauto|apply (remove_replaceable_markers _ _ _ _ _ _ H)]. }
+      destruct (is_param_replaceable (a_kind a)).
+      { intros H. apply Fin; [eapply remove_param_replaceable_ile; eauto|apply (remove_param_replaceable_markers _ _ _ _ _ H)]. }
+      intros [= <-]. apply Fin; [apply ile_refl|reflexivity].
+  Qed.
+
+  Lemma handle_deletion_idcov tags : forall txn txn', incl tags (e_tags ev) -> TI s txn -> NewOnly c txn (e_id ev) o0 -> IdCov L txn ->
+    handle_deletion s txn ev tags = Ok txn' -> IdCov L txn'.
+  Proof.
+    induction tags as [|t r IH]; intros txn txn' Hinc Ht Hn Hcov; cbn [handle_deletion]; [intros [= <-]; exact Hcov|].
+    destruct (handle_one_tag s txn ev t) as [t1| | |] eqn:E; cbn [bind]; try discriminate.
+    destruct (handle_one_tag_idcov txn t t1 (Hinc t (or_introl eq_refl)) Ht Hn Hcov E) as [Hn1 Hc1].
+    apply IH; try assumption; [intros z Hz; apply Hinc; right; exact Hz|eapply (handle_one_tag_inv s Hw Hc); eauto].
+  Qed.
+End IdScan.
+
+Theorem store_event_IdCov s e : StoreInv s -> wf_ev e -> IdCov (log s) (committed s) ->
+  IdCov (log (fst (store_event s e))) (committed (fst (store_event s e))).
+Proof.
+  intros ((Hl & Hw & Hi) & Hid & Hwe & _) Wev Hcov.
+  unfold store_event.
+  destruct (pre_checks s e) as [txn|e0| |] eqn:Ep; cbn [fst]; try exact Hcov.
+  destruct (pre_checks_ile _ _ _ Ep) as [I0 Hnone].
+  destruct (pre_checks_markers _ _ _ Ep) as [M0 _].
+  destruct (pre_checks_inv s Hw Hi e txn Ep) as [Ht Rt].
+  assert (Hnd : is_deleted (committed s) (e_id e) = false).
+  { unfold pre_checks in Ep. destruct (t_get (t_i (committed s)) (e_id e)); [discriminate|].
+    destruct (is_deleted (committed s) (e_id e)); [discriminate|reflexivity]. }
+  unfold log_append. set (o := align8 (log_end s)) in *.
+  set (s1 := mkDb (committed s) ((o, e) :: log s) (o + event_size e) (bak s)) in *.
+  pose proof (align8_ge (log_end s)) as (A & B & _). fold o in A. pose proof (event_size_pos e) as Hsz.
+  assert (Hfind : forall p y, log_find (log s) p = Some y -> log_find (log s1) p = Some y).
+  { intros p y Hf. subst s1. cbn [log log_find]. destruct (N.eqb_spec o p) as [Heq|_]; [|exact Hf].
+    exfalso. apply log_find_In in Hf. destruct Hl as [_ Hl]. destruct (Hl _ _ Hf) as (_ & _ & Z). pose proof (event_size_pos y). lia. }
+  assert (Hidx : forall tb, ile (committed s) tb -> forall id off, In (id, off) (t_i tb) -> log_find (log s1) off = log_find (log s) off).
+  { intros tb I id off Hin. apply (ile_In _ _ _ _ I) in Hin. destruct Hid as [_ Hh]. destruct (Hh _ _ Hin) as [_ [y [Hf _]]].
+    rewrite Hf. apply Hfind. exact Hf. }
+  assert (Hself : log_find (log s1) o = Some e) by (subst s1; cbn [log log_find]; rewrite N.eqb_refl; reflexivity).
+  assert (Ctxn : IdCov (log s1) txn).
+  { apply (IdCov_log (log s)); [apply Hidx; exact I0|]. apply (IdCov_shrink _ (committed s)); assumption. }
+  assert (C2 : IdCov (log s1) (index txn e o)).
+  { intros x off Hin Hf Hd. rewrite index_ti in Hin. apply In_t_put in Hin.
+    unfold is_deleted in Hd. rewrite (proj1 (index_markers txn e o)) in Hd.
+    destruct Hin as [[Eid ->]|[Hin _]].
+    - exfalso. unfold is_deleted in Hnd. rewrite Eid, M0 in Hd. destruct (t_get (t_delids (committed s)) (e_id e)); discriminate.
+    - apply (Ctxn x off Hin Hf). exact Hd. }
+  assert (N2 : NewOnly (committed s) (index txn e o) (e_id e) o).
+  { intros id off Hin. rewrite index_ti in Hin. apply In_t_put in Hin. destruct Hin as [[-> ->]|[Hin _]]; [right; split; reflexivity|left].
+    eapply ile_In; eauto. }
+  set (txn2 := if is_ephemeral (e_kind e) then txn else index txn e o).
+  assert (Hfail : IdCov (log s1) (committed s)).
+  { apply (IdCov_log (log s)); [apply Hidx; apply ile_refl|exact Hcov]. }
+  destruct (N.eqb_spec (e_kind e) 5) as [Hk|Hk].
+  - assert (Hwe1 : log_wfe (log s1)).
+    { intros p y Hf. subst s1. cbn [log log_find] in Hf. destruct (o =? p); [injection Hf as <-; exact Wev|eapply Hwe; eauto]. }
+    assert (Hw1 : log_wf (log s1)) by (apply log_wfe_wf; exact Hwe1).
+    assert (Hgrow : forall tb, AllInv (log s) tb -> AllInv (log s1) tb).
+    { intros tb Htb. eapply AllInv_log; [|exact Htb]. intros id p Hin.
+      destruct Htb as [[_ Hio] _]. destruct (Hio id p Hin) as [y [Hf _]]. rewrite Hf. apply Hfind. exact Hf. }
+    assert (Hc1 : AllInv (log s1) (committed s1)) by (apply Hgrow; exact Hi).
+    assert (Hfresh : forall p, ~ In (e_id e, p) (t_i txn)).
+    { intros p Hin. apply (ile_In _ _ _ _ I0) in Hin. destruct Hi as [[U _] _]. apply (t_get_In _ _ _ U) in Hin. congruence. }
+    assert (T2 : TI s1 (index txn e o)).
+    { split.
+      - apply AllInv_index; [exact Hw1|exact Hself|exact Hfresh|apply Hgrow; exact Ht].
+      - intros id p p' Hin Hcm. rewrite index_ti in Hin. apply In_t_put in Hin. destruct Hin as [[-> ->]|[Hin _]].
+        + exfalso. subst s1. cbn [committed] in Hcm. destruct Hi as [[U _] _]. apply (t_get_In _ _ _ U) in Hcm. congruence.
+        + eapply Rt; eauto. }
+    assert (Et2 : txn2 = index txn e o) by (subst txn2; rewrite Hk; reflexivity).
+    rewrite Et2.
+    destruct (handle_deletion s1 (index txn e o) e (e_tags e)) as [txn3|e0| |] eqn:Eh; cbn [fst committed log with_committed]; try exact Hfail.
+    apply (handle_deletion_idcov s1 Hw1 Hc1 e o Hself Hk (e_tags e) (index txn e o) txn3 (fun z Hz => Hz) T2 N2 C2 Eh).
+  - cbn [fst committed log with_committed]. subst txn2. destruct (is_ephemeral (e_kind e)); [exact Ctxn|exact C2].
+Qed.
+
+Lemma remove_event_IdCov s id : IdCov (log s) (committed s) ->
+  IdCov (log (fst (remove_event s id))) (committed (fst (remove_event s id))).
+Proof.
+  intros H. pose proof (remove_event_markers s id) as [M _]. unfold remove_event in *.
+  destruct (remove_by_id s (committed s) id) as [tb| | |] eqn:E; cbn [fst] in *; try exact H.
+  cbn [with_committed log committed] in *. apply (IdCov_shrink _ (committed s)); [eapply remove_by_id_ile; eauto|exact M|exact H].
+Qed.
+Lemma remove_events_IdCov ids : forall s, IdCov (log s) (committed s) ->
+  IdCov (log (fst (remove_events s ids))) (committed (fst (remove_events s ids))).
+Proof.
+  induction ids as [|id r IH]; intros s H; cbn [remove_events]; [exact H|].
+  pose proof (remove_event_IdCov s id H) as H1. destruct (remove_event s id) as [s1 r1]. cbn [fst] in H1.
+  destruct r1 as [u| | |]; try exact H1. apply IH. exact H1.
+Qed.
+Lemma vanish_IdCov s pk : IdCov (log s) (committed s) -> IdCov (log (fst (vanish s pk))) (committed (fst (vanish s pk))).
+Proof.
+  intros H. unfold vanish. destruct (find_events s _ all_match 0 true 0 0) as [[evs r1]| | |]; cbn [fst]; try exact H.
+  pose proof (remove_events_IdCov (map e_id evs) s H) as H1. destruct (remove_events s (map e_id evs)) as [s1 rr]. cbn [fst] in H1.
+  destruct rr as [u| | |]; cbn [fst]; try exact H1.
+  destruct (find_events s1 _ all_match 0 true 0 0) as [[gws r2]| | |]; cbn [fst]; try exact H1.
+  apply remove_events_IdCov. exact H1.
+Qed.
+
+Lemma c_run_IdCov ops : forall s, ops_wfe ops -> StoreInv s -> IdCov (log s) (committed s) ->
+  IdCov (log (c_run ops s)) (committed (c_run ops s)).
+Proof.
+  induction ops as [|op ops IH]; intros s Hw HA H; cbn [c_run fold_left]; [exact H|].
+  inversion Hw as [|? ? Hop Hr]; subst. apply IH; [exact Hr|apply c_step_StoreInv; assumption|].
+  destruct op; cbn [c_step].
+  - apply store_event_IdCov; assumption.
+  - apply remove_event_IdCov. exact H.
+  - apply vanish_IdCov. exact H.
+  - unfold db_extra_put. cbn [with_committed log committed]. apply (IdCov_shrink _ (committed s)); [exists []; reflexivity|reflexivity|exact H].
+  - exact H.
+Qed.
+
+Theorem no_retrievable_event_is_marked_deleted ops names x : ops_wfe ops -> let s := c_run ops (db_init names) in
+  get_event_by_id s (e_id x) = Ok (Some x) -> event_is_deleted s (e_id x) = true -> self_naming x.
+Proof.
+  intros Hops s Hx Hd.
+  pose proof (c_run_StoreInv ops _ Hops (StoreInv_init names)) as HA. fold s in HA.
+  assert (Hc : IdCov (log s) (committed s)).
+  { apply c_run_IdCov; [exact Hops|apply StoreInv_init|]. intros y off []. }
+  destruct (by_id_entry s _ _ (proj1 (proj2 HA)) Hx) as [off [Hi Hf]].
+  apply (Hc x off Hi Hf Hd).
+Qed.
+
+(* ====================== C09: the newer event wins ====================== *)
+(* after a successful store, the stored event is THE holder of its address: every retrievable event at the same
+   address is that event (what was there before - older, or of equal time - has been replaced) *)
+Theorem stored_event_is_sole_holder ops names e s' off x : ops_wfe ops -> wf_ev e ->
+  let s := c_run ops (db_init names) in
+  store_event s e = (s', Ok off) -> is_ephemeral (e_kind e) = false -> e_kind e <> 5 ->
+  get_event_by_id s' (e_id x) = Ok (Some x) -> same_address x e -> x = e.
+Proof.
+  intros Hops We s Hst Hne Hk5 Hx Hsa.
+  destruct (stored_event_found_by_id ops names e s' off Hst Hne Hk5) as [He _].
+  assert (Es' : s' = c_run (ops ++ [CStore e]) (db_init names)).
+  { unfold c_run. rewrite fold_left_app. cbn [fold_left c_step]. fold (c_run ops (db_init names)). fold s. rewrite Hst. reflexivity. }
+  assert (Hw : ops_wfe (ops ++ [CStore e])) by (apply Forall_app; split; [exact Hops|constructor; [exact We|constructor]]).
+  rewrite Es' in Hx, He. exact (at_most_one_per_address_concrete (ops ++ [CStore e]) names x e Hw Hx He Hsa).
+Qed.
